@@ -80,7 +80,6 @@ Range(q) == { q[i] : i \in 1..Len(q) }
 ValuesOf(rs) == [i \in 1..Len(rs) |-> rs[i].v]
 \* Go's integer division truncates toward zero (TLA+ \div floors); the divisor is a count > 0
 GoDiv(a, b) == IF a >= 0 THEN a \div b ELSE -((-a) \div b)
-Perms(S) == { p \in [1..Cardinality(S) -> S] : \A i, j \in 1..Cardinality(S) : i # j => p[i] # p[j] }
 
 ---------------------------------------------------------------------------
 \* Reference (the documented meaning) over a NON-EMPTY bag of integers given as a sequence
@@ -128,8 +127,12 @@ RECURSIVE ReduceFold(_, _, _)
 ReduceFold(f, st, ps) == IF ps = <<>> THEN st ELSE ReduceFold(f, Combine(f, st, Head(ps)), Tail(ps))
 \* Reduce.Val() after Combine of the partials in arrival order ps
 Reduce(f, ps) == MapVal(f, ReduceFold(f, ReduceInit(f), ps))
-\* a set of partials reduces to the same value in every arrival order
-ReduceSetOK(f, P, want) == \A p \in Perms(P) : Reduce(f, p) = want
+\* a set of partials reduces to the same value in every arrival order (all |P|! orders are walked)
+RECURSIVE AllOrdersOK(_, _, _, _)
+AllOrdersOK(f, st, P, want) ==
+  IF P = {} THEN MapVal(f, st) = want
+  ELSE \A p \in P : AllOrdersOK(f, Combine(f, st, p), P \ {p}, want)
+ReduceSetOK(f, P, want) == AllOrdersOK(f, ReduceInit(f), P, want)
 
 ---------------------------------------------------------------------------
 \* Family "agg": rows, blocks, groups
@@ -171,6 +174,9 @@ GroupResponses(P, rep) ==
   UNION { { [stamp |-> x.s, key |-> x.key, s |-> x.s, i |-> i, p |-> x.p] : i \in 1..rep[x.s] } : x \in P }
 \* ... with group-by: one answer per (stamp, group key) survives
 DedupGrouped(R) == { CHOOSE r \in R : r.stamp = d[1] /\ r.key = d[2] : d \in { <<x.stamp, x.key>> : x \in R } }
+
+\* "a shard answered by several replicas counts once"
+DedupReplicas(R, grouped) == IF grouped THEN DedupGrouped(R) ELSE DedupScalar(R)
 
 Reps == [Shards -> 1..MaxRep]
 
@@ -276,7 +282,7 @@ ReplicasCountOnce ==
   rows # <<>> => \A f \in Funcs :
      LET P == ShardPartials(f, rows)
          want == Agg(f, AllVals) IN
-       \A rep \in Reps : ReduceSetOK(f, PartialsOf(DedupScalar(ScalarResponses(P, rep))), want)
+       \A rep \in Reps : ReduceSetOK(f, PartialsOf(DedupReplicas(ScalarResponses(P, rep), FALSE)), want)
 
 \* group-by over the two keys: the groups are the distinct key tuples ...
 GroupsAreKeyTuples ==
@@ -288,7 +294,7 @@ GroupedLaw ==
         want == [k \in KeysOf(rows) |->
                    Agg(f, ValuesOf(SelectSeq(rows, LAMBDA r : <<r.g1, r.g2>> = <<G1Of(rows, k), G2Of(rows, k)>>)))] IN
       \A rep \in Reps :
-        LET R == DedupGrouped(GroupResponses(P, rep)) IN
+        LET R == DedupReplicas(GroupResponses(P, rep), TRUE) IN
           \A k \in KeysOf(rows) :
             ReduceSetOK(f, { [value |-> r.p.value, count |-> r.p.count, s |-> r.s] : r \in { x \in R : x.key = k } }, want[k])
 
